@@ -1,8 +1,39 @@
-"""Claims per property (kept next to the registry so MANIFEST.json can be regenerated)."""
+"""Claims per property (kept next to the registry so MANIFEST.json can be regenerated
+with `python3-vt -m dpvc.manifest_gen`)."""
 from .registry import claim  # noqa: F401
 
-claim("C01", "proof",
-      "contract-based deductive verification: z3 VCs from the AST of the real functions against sidecar contracts",
-      "T1 (proved for all integers of every width): bitmask normalisation, lowest-bit, triviality/compatibility/nesting predicates. T2 (bounded).",
-      "bit masks modelled exactly as sets of naturals; sidecar types; see evidence.assumptions",
+T1 = "contract-based deductive verification: VCs generated from the AST of the real /repo functions against sidecar contracts, discharged by z3"
+T2 = "run-time contracts on the real functions over an exhaustive small scope (bounded stand-in, never counted as proved)"
+
+claim("C01", "proof", T1 + "; " + T2,
+      "Proved for all integers of every width (T1): bitmask normalisation, lowest set bit, triviality / compatibility / nesting predicates, "
+      "compile_{tree_leafset,leafset,split}_bitmask (split = leafset when rooted, = leafset normalised on the lowest tree bit when unrooted) with frames. "
+      "Bounded (T2): whole-tree exactness of encode_bipartitions, the iff with topology, reconstruction from any ordering.",
+      "bit masks modelled exactly as sets of naturals (Array Int Bool); sidecar types are preconditions; the splits-equivalence theorem is not re-proved; "
+      "encode loop / reconstruction are bounded only",
       "DESIGN.md section 5 C01")
+claim("C02", "proof", T1 + " (character-class theory + exhaustive code-point enumeration); " + T2,
+      "Proved (T1): for every code point, each tree writer's protect class covers every character NexusTokenizer treats specially (both regexes and the "
+      "tokenizer sets extracted from the AST each run; cross-checked on all 1,114,112 code points); the writer's rooting token and the reader's "
+      "rooting interpretation are inverse tables. Bounded (T2): the full write/read round trip.",
+      "tokenizer/parser state machines and xml.etree are not proved; the round trip itself is bounded",
+      "DESIGN.md section 5 C02")
+claim("C16", "proof", "contract-based frame verification by a modular effect analysis of the real AST (no solver); " + T2,
+      "Proved (T1, effects): parsimony_score reaches no read/write of the node-attribute state-set cache with the arguments it passes "
+      "(purity frame: the score depends only on tree and matrix). Bounded (T2): minimality against a brute-force minimum, per-character sums, "
+      "rooting/child-order invariance, history independence.",
+      "callees resolved by name inside dendropy.model.parsimony; Fitch optimality (Hartigan) not re-proved",
+      "DESIGN.md section 5 C16")
+claim("C18", "proof", "contract-based frame verification by a modular effect analysis of the real AST (no solver); " + T2,
+      "Proved (T1, effects): every simulator named by the property, and transitively every callee declaring an rng parameter, draws only from "
+      "its rng argument (E1 GLOBAL_RNG only as default, E2 no module-level random.*, E3 rng forwarded at every call). Bounded (T2): exact N tips, "
+      "bifurcating, ultrametric, containment, run-to-run equality over seeds.",
+      "callees resolved by name over the indexed dendropy modules; distributional correctness is out of scope",
+      "DESIGN.md section 5 C18")
+claim("C20", "proof", T1 + " (token-stream ghost state; lenient abstraction of non-token code); " + T2,
+      "Proved (T1): every while loop of the NEXUS reader and NexusTokenizer.skip_to_semicolon makes progress on the measure "
+      "(tokens left) + (0 if eof else 1) -- no input can hang them; no method is called on a token that may be None; every raise statement of the "
+      "reader modules is of the DataParseError family. Bounded (T2): every truncation and single edit of valid documents, all four formats.",
+      "tokenizer primitives (next_token*, require_next_token*, is_eof) are ASSUMED contracts validated at run time; non-token code is abstracted "
+      "(assumed to terminate and to raise only parse errors); Newick recursive descent, PHYLIP/FASTA readers and recursion depth are bounded only",
+      "DESIGN.md section 5 C20")
